@@ -15,6 +15,7 @@ from ..decide import outcomes
 from ..effects import Effects
 from ..fold import Inst, is_unknown
 from ..spec import tables as T
+from .common import inconclusive_on_error as _ioe
 from .common import (resolve_all, find_local, JWE_CONSUME, JWE_PRODUCE, JWS_CONSUME, JWS_PRODUCE, can_reach_exit, const_value, entries, is_const, scope_of,
                      succ_by_label)
 from .c05 import _resolve_local
@@ -22,6 +23,7 @@ from .c05 import _resolve_local
 KS = "_keys:KeySet"
 
 
+@_ioe
 def _get_by_kid_folded(ctx, fn) -> Optional[List[str]]:
     """Fold KeySet.get_by_kid on probe sets (0, 1, 3 keys; a duplicated kid; kid None / present / absent): the result is the single key
     when no kid is asked for and the set holds one key, otherwise the first key in set order whose kid equals the request, otherwise
@@ -299,6 +301,7 @@ def r14_3(ctx) -> None:
         ctx.check(nm in T.JWE_DRAFT_ALGS and kt == T.JWE_DRAFT_ALGS[nm][0], "R14.3", None, None, f"draft {nm} key types", f"{nm}: key types {kt!r}", f"= {kt}", construct=f"draft key types {nm}")
 
 
+@_ioe
 def _pick_random_folded(ctx, pr) -> Optional[List[str]]:
     """Fold KeySet.pick_random_key on probe sets (random.choice stays symbolic): the pool handed to random.choice is exactly the keys, in
     set order, whose key_type the algorithm's entry names - the whole set when there is no entry - and the result is None when the pool is
@@ -446,13 +449,15 @@ def _r14_5(ctx, ks) -> None:
               construct="KeySet.as_dict")
 
 
-def r14_6_7(ctx) -> None:
+def r14_6_7(ctx, family: Optional[str] = None) -> None:
     eng = ctx.eng
     P = eng.prog
     sibs = [P.cls("rfc7515.model:HeaderMember").methods.get("set_kid"), P.cls("rfc7515.model:CompactSignature").methods.get("set_kid"),
             P.cls("rfc7516.models:Recipient").methods.get("set_kid")]
     if any(s is None for s in sibs):
         raise AnalysisError("a set_kid sibling vanished")
+    if family == "jwe":
+        sibs = sibs[2:]  # borrowed by a JWE property: the JWS message classes are not its business
     for fn in sibs:
         kp = fn.pos_params[1]
         ok = False
@@ -553,7 +558,21 @@ def r14_14(ctx) -> None:
               construct=f"ensure_kid for every key in KeySet.__init__: {why if not ok else 'ok'}")
 
 
+def r14_15(ctx) -> None:
+    """R14.15  "the key named by kid": key.kid is the JWK's kid member as it is - an explicit empty kid is a kid (get_by_kid("") finds that key, a
+    token without kid does not match it).  Folded on probe JWK views."""
+    from .common import basekey_accessor_verdicts
+    eng = ctx.eng
+    v = basekey_accessor_verdicts(eng)
+    fn = eng.prog.cls("rfc7517.models:BaseKey").methods.get("kid")
+    if v is None:
+        raise AnalysisError("BaseKey.kid does not fold")
+    bad = [t for c_, t in v if c_ == "kid"]
+    ctx.check(not bad, "R14.15", fn, fn.node if fn else None, "BaseKey.kid / alg (folded on probe keys)", "; ".join(bad[:2]), "the member as it is; None when absent", construct="kid accessor")
+
+
 def run(ctx) -> None:
+    ctx.guard(r14_15)
     from .common import forwarding_discipline
     ctx.guard(forwarding_discipline, "R14.12", ['key', 'obj', 'find_key', 'public_key', 'private_key'], 40)  # arguments are handed on under their own name (generic routing rule, rules/common.py)
     ctx.guard(r14_14)
